@@ -151,6 +151,20 @@ def update (m : Mgr) (worker : Option Nat) : UpdateObs :=
   let confirmed := worker = some m.ver
   ⟨.fail, m.ver, confirmed⟩
 
+structure ConnObs where
+  res : Res
+  unconfirmed : Nat      -- API requests served by a worker that had not confirmed the version on that connection
+  apiSeen : Bool
+  deriving Repr
+
+/-- The same operation at the level of connections: the i-th connection accepted on the API socket belongs to a worker process
+running `workers[i]`. The version check and the API requests share one keep-alive client, so the requests that follow a successful
+check travel on the connection — to the worker — that answered it; nothing is sent when the first worker does not confirm. -/
+def updateConn (m : Mgr) (workers : List (Option Nat)) : ConnObs :=
+  match workers with
+  | w0 :: _ => if w0 = some m.ver then ⟨.ok, 0, true⟩ else ⟨.fail, 0, false⟩
+  | [] => ⟨.fail, 0, false⟩
+
 /-- Decimal rendering used by the version file template (`{{.ConfigVersion}}`). -/
 def versionText (v : Nat) : String := toString v
 
